@@ -16,7 +16,7 @@ func main() {
 	r := drv.NewRand(cfg.Seed)
 	w := emit.NewWriter(cfg.Out, "C07_spec", 0, cfg.Only)
 	n := cfg.Count(240, 4000)
-	p := c04_hist.Profile{MaxOps: 14, MaxFlows: 2, MaxRefresh: 4, OfflinePct: 92, CodeAttacks: 10, RefreshOff: 12, RefreshAtk: 45, FlowMutation: 8, FaultPct: 6, DropPct: 22}
+	p := c04_hist.Profile{MaxOps: 14, MaxFlows: 2, MaxRefresh: 4, OfflinePct: 92, CodeAttacks: 10, RefreshOff: 12, RefreshAtk: 45, FlowMutation: 8, FaultPct: 6, DropPct: 22, HintPct: 6}
 	if !cfg.Quick {
 		p.MaxOps, p.MaxFlows, p.MaxRefresh = 40, 3, 8
 	}
